@@ -172,17 +172,20 @@ def run_syntax_impl(case, wild=True):
     return r + (text,) if len(r) == 2 else r
 
 # ------------------------------------------------------------------------------------------- (b) modifiers, n-ary, in every section
-def gen_nary(g, depth):
+def gen_nary(g, depth, ranged=False):
     """a p_c07 tree (binary, left nested) together with the n-ary potable spelling"""
     if depth == 0 or g.random() < 0.3:
         l = p_c07.gen_leaf(g, positive=g.random() < 0.5); l['kind'] = 'full'; return l
     op = g.choice(['plus', 'product', 'plus', 'product', 'pow', 'trans'])
-    if op == 'trans': return {'op': 'trans', 'a': gen_nary(g, depth - 1), 'X': fc.grid(g, 0.0, 1.5)}
+    if op == 'trans': return {'op': 'trans', 'a': gen_nary(g, depth - 1, ranged), 'X': fc.grid(g, 0.0, 1.5)}
     if op == 'pow':
         a = p_c07.gen_leaf(g, positive=True); a['kind'] = 'full'; b = p_c07.gen_leaf(g, positive=True); b['kind'] = 'full'
         return {'op': 'pow', 'a': a, 'b': b, 'nary': True}
     n = g.choice([2, 3, 4])
-    args = [gen_nary(g, depth - 1) for _ in range(n)]
+    args = [gen_nary(g, depth - 1, ranged) for _ in range(n)]
+    if ranged and g.random() < 0.6:      # an argument restricted to r above a start: it contributes 0 below
+        k = g.randrange(1, n)
+        args[k] = {'op': 'range', 'marker': g.choice(['>', '>=']), 'start': fc.grid(g, 1.0, 3.5), 'a': args[k]}
     t = args[0]
     for x in args[1:]: t = {'op': op, 'a': t, 'b': x, 'nary_cont': True}
     t['nary_args'] = args
@@ -191,6 +194,7 @@ def gen_nary(g, depth):
 def nary_text(t):
     if t['op'] == 'leaf': return 'as.%s %s' % (t['form'], ' '.join(repr(p) for p in t['params']))
     if t['op'] == 'trans': return 'trans(%s, as.constant %r)' % (nary_text(t['a']), t['X'])
+    if t['op'] == 'range': return '%s%r %s' % (t['marker'], t['start'], nary_text(t['a']))
     if 'nary_args' in t: return '%s(%s)' % ({'plus': 'sum', 'product': 'product'}[t['op']], ', '.join(nary_text(a) for a in t['nary_args']))
     return '%s(%s, %s)' % ({'plus': 'sum', 'product': 'product', 'pow': 'pow'}[t['op']], nary_text(t['a']), nary_text(t['b']))
 
@@ -198,7 +202,8 @@ def strip(t):
     return {k: (strip(v) if isinstance(v, dict) else v) for k, v in t.items() if k not in ('nary_args', 'nary_cont', 'nary')}
 
 def gen_sem_case(g):
-    return {'kind': 'sem', 'tree': gen_nary(g, g.choice([1, 2, 2, 3])), 'r': fc.grid(g, 0.75, 4.0), 'section': g.choice(['Pair', 'Pair', 'EAM-Embed', 'EAM-Density', 'EAM-Density-FS'])}
+    ranged = g.random() < 0.35
+    return {'kind': 'sem', 'tree': gen_nary(g, g.choice([1, 2, 2, 3]), ranged), 'r': fc.grid(g, 0.75, 4.0), 'section': g.choice(['Pair', 'Pair', 'EAM-Embed', 'EAM-Density', 'EAM-Density-FS']), 'ranged': ranged}
 
 def sem_text(case, defn=None):
     d = defn or nary_text(case['tree'])
@@ -361,6 +366,7 @@ def correspond(ctx):
     # modifiers: interval-certified against the combinator model
     goals, kept = [], []
     for c in sem:
+        if '"range"' in json.dumps(c['tree']): continue          # ranged arguments: oracle only
         try: f = sem_callable(c); o = p_c07.observe(f, c['r'])
         except (OverflowError, ZeroDivisionError, ValueError): continue
         except Exception as e:
@@ -404,6 +410,7 @@ def oracle(case):
         def mean(t, r):
             if t['op'] == 'leaf': return getattr(pfm, t['form'])(*t['params'])(r)
             if t['op'] == 'trans': return mean(t['a'], r + t['X'])
+            if t['op'] == 'range': return mean(t['a'], r) if (r > t['start'] or (r == t['start'] and t['marker'] == '>=')) else 0.0
             a, b = mean(t['a'], r), mean(t['b'], r)
             return a + b if t['op'] == 'plus' else (a * b if t['op'] == 'product' else a ** b)
         try: want = mean(t, r); got = f(r)
@@ -412,6 +419,7 @@ def oracle(case):
         if abs(want - got) > 1e-9 * max(1.0, abs(want)): fails.append('%s in [%s] at r = %r evaluates to %r, its pointwise meaning is %r' % (nary_text(t), case['section'], r, got, want))
         # the same pieces through the Python API
         try:
+            if '"range"' in json.dumps(t): raise ValueError('ranges are a potable notion')
             api = p_c07.py_build(strip(t)); av = api(r)
             if abs(av - got) > 1e-9 * max(1.0, abs(av)): fails.append('potable gives %r, the Python API composition %r' % (got, av))
         except (OverflowError, ZeroDivisionError, ValueError): pass
